@@ -262,6 +262,8 @@ def _apply_env(env):
         fs.version_info = d["sys.version_info"]
     if "sys.maxunicode" in d:
         fs.maxunicode = d["sys.maxunicode"]
+    if "sys.implementation.name" in d:                  # x2
+        fs.implementation = types.SimpleNamespace(name=d["sys.implementation.name"])
     T.sys = fs
     if "sysconfig.get_config_var" in d:
         table = {k[0]: v for k, v in d["sysconfig.get_config_var"]}
@@ -287,15 +289,24 @@ PLATS = ["linux_x86_64", "manylinux2014_x86_64", "any", "win_amd64", "macosx_11_
 ABIS = ["cp313", "cp313t", "cp39", "cp312d", "abi3", "none", "cp3", "cpx", "cp", "cp31\nt", "CP313T", "pypy39_pp73", "cp313td", ""]
 
 
+EXT_SUFFIXES = [".cpython-313-x86_64-linux-gnu.so", ".cpython-310-darwin.so", ".cp310-win_amd64.pyd", ".pyd", ".so",
+                ".pypy38-pp73-x86_64-linux-gnu.so", ".graalpy-38-native-x86_64-darwin.dylib", ".pyston-23-x86_64.so",
+                "", None, 3, "x.so", "cpython-313.so", ".cpython.so", "..so", ".pypy39.so", ".graalpy-38.so", ".cp3 9.x-y.so",
+                ".CPYTHON-39.so", ".cpython-3.9 x.so"]
+
+
 def _g_env(rng):
     cfgval = lambda: rng.choice([None, None, 0, 1, 4, 2, "", "1", "yes"])
     return Env([
         ("sys.version_info", tuple(rng.choice([[3, 12], [3, 13], [3, 7], [3, 2], [2, 7], [3, 0], [3], [4, 1]]))),
         ("platform_tags", [((), iter(rng.sample(PLATS, rng.choice([0, 1, 2, 3]))))]),
-        ("sysconfig.get_config_var", [((n,), cfgval()) for n in ("Py_DEBUG", "Py_GIL_DISABLED", "WITH_PYMALLOC", "Py_UNICODE_SIZE")]),
+        ("sysconfig.get_config_var", [((n,), cfgval()) for n in ("Py_DEBUG", "Py_GIL_DISABLED", "WITH_PYMALLOC", "Py_UNICODE_SIZE")]
+         + [(("py_version_nodot",), rng.choice([None, None, "313", 313, 0, "", "39", 27])),               # x2
+            (("EXT_SUFFIX",), rng.choice(EXT_SUFFIXES))]),
         ("hasattr(sys,gettotalrefcount)", rng.random() < 0.3),
         ("EXTENSION_SUFFIXES", rng.choice([[], ["_d.pyd"], [".so", "_d.pyd"], [".pyd"]])),
         ("sys.maxunicode", rng.choice([1114111, 65535])),
+        ("sys.implementation.name", rng.choice(["cpython", "cpython", "pypy", "python", "ironpython", "jython", "graalpy", "", "CPython"])),
     ])
 
 
@@ -342,7 +353,8 @@ def _g_cpython_abis(rng):
 
 
 def _g_get_config_var(rng):
-    return [_g_env(rng), rng.choice(["Py_DEBUG", "Py_GIL_DISABLED", "WITH_PYMALLOC", "Py_UNICODE_SIZE"]), rng.random() < 0.5]
+    return [_g_env(rng), rng.choice(["Py_DEBUG", "Py_GIL_DISABLED", "WITH_PYMALLOC", "Py_UNICODE_SIZE", "py_version_nodot", "EXT_SUFFIX"]),
+            rng.random() < 0.5]
 
 
 def _g_version_nodot(rng):
@@ -596,7 +608,31 @@ def _g_parse_wheel(rng):
             return [f]
 
 
+def _g_normalize_string(rng):
+    return [rng.choice(["linux-x86_64", "macosx-10.9-universal2", "win amd64", "a.b-c d", "", "_", "É.x", "a\tb", "manylinux_2_17"])]
+
+
+def _g_env_only(rng):
+    return [_g_env(rng)]
+
+
+def _g_interpreter_version(rng):
+    return [_g_env(rng), rng.random() < 0.5]
+
+
+def _g_generic_tags(rng):
+    return [_g_env(rng), rng.choice([None, None, "", "cp313", "PP39", "ip2"]), _g_abis(rng), _g_plats(rng), rng.random() < 0.3]
+
+
+ENV_FUNCS |= {"interpreter_name", "interpreter_version", "_generic_abi", "generic_tags", "sys_tags"}
+
 FUNCS.update({
+    "_normalize_string": ("packaging.tags", "_normalize_string", _g_normalize_string),
+    "interpreter_name": ("packaging.tags", "interpreter_name", _g_env_only),
+    "interpreter_version": ("packaging.tags", "interpreter_version", _g_interpreter_version),
+    "_generic_abi": ("packaging.tags", "_generic_abi", _g_env_only),
+    "generic_tags": ("packaging.tags", "generic_tags", _g_generic_tags),
+    "sys_tags": ("packaging.tags", "sys_tags", _g_interpreter_version),
     "canonicalize_name": ("packaging.utils", "canonicalize_name", _g_canonicalize_name),
     "is_normalized_name": ("packaging.utils", "is_normalized_name", _g_is_normalized_name),
     "parse_tag": ("packaging.tags", "parse_tag", _g_parse_tag),
